@@ -132,7 +132,7 @@ struct TC {
     std::ostringstream o;
     o << "fam=" << fam << ";fmt=" << fmt << ";nb=" << nb << ";nf=" << nf << ";pat=" << pat << ";box=" << box
       << ";vf=" << vf << ";nm=" << nm << ";shim=" << shim << ";m=" << m << ";at=" << at;
-    if (fam == "ru") o << ";f2=" << f2 << ";k1=" << k1 << ";k2=" << k2 << ";mode=" << mode;
+    if (fam == "ru" || fam == "ms") o << ";f2=" << f2 << ";k1=" << k1 << ";k2=" << k2 << ";mode=" << mode;
     if (fam == "dr") o << ";seq=" << seq;
     return o.str();
   }
@@ -1029,6 +1029,93 @@ static void run_dr(const TC &c, Fails &F, std::string &sig) {
   }
 }
 
+// ------------------------------------------------------------------ family ms (multi-session trajectories, bAppend)
+// k frames are written in 1..3 sessions (k2 = index of the split of k into sessions); a session is a new writer object
+// (mode n) or the same object after Close() (mode s); later sessions open with bAppend=true. c.at selects the first session:
+//   0 bAppend=false, new file        1 bAppend=true on a missing file
+//   2 bAppend=true on a file that holds 2 frames of an earlier sequence (result: those 2 + the k frames)
+//   3 bAppend=false on such a file (must replace it)
+// Oracle: a fresh reader gives, bit for bit, what it gives for the reference file (the same frames written in ONE session);
+// "append not supported" reported by the writer is accepted for dlpoly only (the unchanged code says so).
+static std::vector<std::vector<int>> splits(int k) {
+  std::vector<std::vector<int>> v;
+  v.push_back({k});
+  for (int a = 1; a < k; a++) v.push_back({a, k - a});
+  for (int a = 1; a < k; a++)
+    for (int b = 1; a + b < k; b++) v.push_back({a, b, k - a - b});
+  return v;
+}
+static void run_ms(const TC &c, Fails &F, std::string &sig) {
+  const FmtInfo &fi = finfo(c.fmt);
+  bool dlp = c.fmt.rfind("dlp", 0) == 0;
+  std::string fn = "m." + fi.ext, ref = "r." + fi.ext;
+  std::remove(fn.c_str());  // the scratch directory is shared by the cases of a shard: "missing file" must really be missing
+  std::remove(ref.c_str());
+  TC base; base.fam = "rt"; base.fmt = c.fmt; base.nb = 2; base.vf = fi.vfs.back(); base.box = 1; base.pat = 3; base.nm = c.fmt == "pdb" ? 3 : 1;
+  TC old = base; old.pat = 6;  // the earlier sequence
+  int k = c.k1;
+  std::vector<int> parts = splits(k)[c.k2];
+  bool with_old = c.at == 2 || c.at == 3;
+  Topology top;
+  build(top, base.nb, base.nm);
+  auto put = [&](TrajectoryWriter &w, const TC &cfgx, int f) { setframe(top, cfgx, frameof(cfgx, cfgx.nb, f), f); w.Write(&top); };
+  // reference: everything the file must hold, written in one session
+  {
+    std::unique_ptr<TrajectoryWriter> w = TrjWriterFactory().Create(ref);
+    w->Open(ref, false);
+    if (c.at == 2) for (int f = 0; f < 2; f++) put(*w, old, f);
+    for (int f = 0; f < k; f++) put(*w, base, f);
+    w->Close();
+  }
+  std::string pre = "multi-session:" + kf(c.fmt);
+  std::string ctx = "frames " + std::to_string(k) + " split";
+  for (int p : parts) ctx += " " + std::to_string(p);
+  ctx += std::string(c.mode == "s" ? ", same writer object" : ", new writer object per session") + ", first session " +
+         (c.at == 0 ? "bAppend=false" : c.at == 1 ? "bAppend=true on a missing file" : c.at == 2 ? "bAppend=true after an earlier 2-frame sequence" : "bAppend=false on a file holding an earlier 2-frame sequence");
+  // the earlier sequence
+  if (with_old) {
+    std::unique_ptr<TrajectoryWriter> w = TrjWriterFactory().Create(fn);
+    w->Open(fn, false);
+    for (int f = 0; f < 2; f++) put(*w, old, f);
+    w->Close();
+  }
+  // the sessions
+  std::unique_ptr<TrajectoryWriter> w;
+  int f = 0;
+  for (size_t si = 0; si < parts.size(); si++) {
+    bool app = si > 0 || c.at == 1 || c.at == 2;
+    if (!w || c.mode == "n") w = TrjWriterFactory().Create(fn);
+    try {
+      w->Open(fn, app);
+    } catch (const std::exception &e) {
+      if (app && dlp) { sig = "append-not-supported"; return; }  // documented refusal
+      F.add(pre + (app ? "-append-open-throws" : "-open-throws"), ctx + ": Open(file, " + (app ? "true" : "false") + ") threw: " + std::string(e.what()).substr(0, 100));
+      return;
+    }
+    for (int j = 0; j < parts[si]; j++, f++) put(*w, base, f);
+    w->Close();
+  }
+  ReadOut got = read_trj(fn, base.nb, base.nm), exp = read_trj(ref, base.nb, base.nm);
+  if (exp.threw) { sig = "blocked"; return; }  // the one-session file itself is unreadable: decided by family rt
+  if (got.threw) { F.add(pre + "-unreadable", ctx + ": fresh reader threw at frame " + std::to_string(got.threw_at) + ": " + got.msg.substr(0, 100)); return; }
+  auto canon = [](const Frame &fr) {
+    std::string s = hxm(fr.box);
+    for (size_t b = 0; b < fr.p.size(); b++) s += "|" + hx(fr.p[b]) + (fr.hv[b] ? " v" + hx(fr.v[b]) : "") + (fr.hf[b] ? " f" + hx(fr.f[b]) : "");
+    return s;
+  };
+  std::vector<std::string> G, E;
+  for (auto &fr : got.fr) G.push_back(canon(fr));
+  for (auto &fr : exp.fr) E.push_back(canon(fr));
+  sig = std::to_string(G.size()) + "/" + std::to_string(E.size());
+  if (G == E) return;
+  auto is_suffix = [](const std::vector<std::string> &a, const std::vector<std::string> &b) {  // a proper suffix of b
+    return a.size() < b.size() && std::equal(a.begin(), a.end(), b.end() - (long)a.size());
+  };
+  std::string cls = is_suffix(G, E) ? "-earlier-frames-lost" : is_suffix(E, G) ? "-old-content-kept" : G.size() != E.size() ? "-frame-count" : "-frames-differ";
+  F.add(pre + cls, ctx + ": file read back holds " + std::to_string(G.size()) + " frames, the same frames written in one session give " + std::to_string(E.size()) +
+                       (G.empty() ? "" : "; first frame read " + v3(got.fr[0].p[0]) + " reference " + v3(exp.fr[0].p[0])));
+}
+
 // ------------------------------------------------------------------ one case
 static bsx::Outcome run_case(const TC &c) {
   bsx::Outcome o;
@@ -1042,6 +1129,7 @@ static bsx::Outcome run_case(const TC &c) {
     else if (c.fam == "xml") run_xml(c, F, sig);
     else if (c.fam == "ru") run_ru(c, F, sig);
     else if (c.fam == "dr") run_dr(c, F, sig);
+    else if (c.fam == "ms") run_ms(c, F, sig);
     else throw std::runtime_error("unknown family " + c.fam);
   } catch (const std::exception &e) {
     F.add(kf(c.fmt) + "-" + c.fam + "-unexpected-exception", std::string("unexpected exception: ") + e.what());
@@ -1176,6 +1264,20 @@ static std::vector<TC> enumerate(bool thorough) {
         all.push_back(c);
       }
     }
+  // 9. multi-session trajectories (family ms): every split of k <= 4 (thorough 5) frames into 1..3 sessions
+  for (auto &fi : formats())
+    for (int k = 1; k <= (thorough ? 5 : 4); k++) {
+      if (fi.name == "dlpc" && k > 1) continue;
+      int ns = (int)splits(k).size();
+      for (int sp = 0; sp < ns; sp++)
+        for (const char *mode : {"n", "s"}) {
+          if (splits(k)[sp].size() == 1 && std::string(mode) == "s") continue;  // one session: nothing to re-open
+          for (int first = 0; first < 4; first++) {
+            TC c; c.fam = "ms"; c.fmt = fi.name; c.f2 = fi.name; c.k1 = k; c.k2 = sp; c.mode = mode; c.at = first; c.nb = 2;
+            all.push_back(c);
+          }
+        }
+    }
   return all;
 }
 
@@ -1223,6 +1325,10 @@ int main(int argc, char **argv) {
       "x velocity/force presence as far as the dialect stores them x 4 naming schemes (1 char, 1..5 chars with distinct types/residues, over-long 7..8 chars, element names) "
       "[x shim on/off for xyz and pdb]; (c) atom-count mismatch: frame of nb atoms read into a topology of m != nb beads at frame 0 or 1; "
       "(d) second dlpoly file of a process; (e) CRYST1 via PDBWriter::WriteBox; (f) generated xml topology + written trajectory; "
+      "(i) multi-session trajectories: every split of k <= " + std::string(thorough ? "5" : "4") + " frames into 1..3 sessions (new writer object per session, or the same object after Close), "
+      "later sessions Open(file, bAppend=true); first session bAppend=false on a new file / bAppend=true on a missing file / bAppend=true on a file holding an earlier 2-frame sequence / "
+      "bAppend=false on such a file (must replace); oracle: a fresh reader returns, bit for bit, the frames it returns for the same frames written in ONE session "
+      "(a writer refusing append is accepted for dlpoly only); "
       "(h) dual-role histories on ONE reader object for the classes that are TopologyReader and TrajectoryReader at once (gro, xyz, pdb, lammps dump, lammps data; "
       "factory product cross-cast to the other interface): every sequence of length 2.." + std::string(thorough ? "4" : "3") + " over {T = ReadTopology(file A, fresh topology), "
       "J = trajectory pass Open/FirstFrame/NextFrame.../Close of file B on a topology built by a fresh reader, M / m = the same pass with a file holding more / fewer atoms than the topology (must report an error)}; "
